@@ -211,23 +211,54 @@ def _run_one(args):
 _CASES = []
 
 
-def run_cases(mod, cases, procs=None):
-    """Run every case (complete enumeration), sharded over worker processes, merged in index order."""
+def run_cases(mod, cases, procs=None, order=None, contiguous=False):
+    """Run every case (complete enumeration), sharded over worker processes, merged in index order.
+
+    order       list of case indices to run (default: all, ascending)
+    contiguous  False: cases are dealt out one at a time (each worker sees an interleaved ascending subsequence);
+                True: each worker gets one contiguous block of `order` (used by the reverse-schedule pass, so that
+                every case is also evaluated after a different set of predecessors, in the opposite order)."""
     global _CASES
     _CASES = cases
     procs = procs or nproc()
-    jobs = [(mod.__name__, i) for i in range(len(cases))]
-    if procs <= 1 or len(cases) <= 1:
+    idxs = list(range(len(cases))) if order is None else list(order)
+    jobs = [(mod.__name__, i) for i in idxs]
+    if procs <= 1 or len(jobs) <= 1:
         res = [_run_one(j) for j in jobs]
     else:
         import multiprocessing as mp
 
         ctx = mp.get_context("fork")
-        chunk = 1 if len(jobs) <= 4000 else max(1, min(64, len(jobs) // (procs * 32)))
         with ctx.Pool(procs) as pool:
-            res = list(pool.imap_unordered(_run_one, jobs, chunksize=chunk))
+            if contiguous:
+                chunk = max(1, -(-len(jobs) // (procs * 2)))
+                res = list(pool.map(_run_one, jobs, chunksize=chunk))
+            else:
+                chunk = 1 if len(jobs) <= 4000 else max(1, min(64, len(jobs) // (procs * 32)))
+                res = list(pool.imap_unordered(_run_one, jobs, chunksize=chunk))
     res.sort(key=lambda r: r["idx"])
     return res
+
+
+def merge_second_schedule(results, results2):
+    """Fold the results of the reverse-schedule pass into the main results: a violation that only the second schedule
+    shows is kept (tagged), evaluations are counted separately."""
+    by = {r["idx"]: r for r in results}
+    extra_evals = 0
+    only_second = 0
+    for r2 in results2:
+        r = by[r2["idx"]]
+        extra_evals += r2["evals"]
+        have = {v["key"] for v in r["viol"]}
+        for v in r2["viol"]:
+            if v["key"] not in have:
+                v = dict(v)
+                v["what"] = v["what"] + " [only in the reverse-order schedule: the result depends on call history]"
+                r["viol"].append(v)
+                only_second += 1
+        r["evals"] += r2["evals"]
+        r["transitions"] += r2["transitions"]
+    return {"second_schedule_cases": len(results2), "second_schedule_evaluations": extra_evals, "violations_only_in_second_schedule": only_second}
 
 
 # ----------------------------------------------------------------------------------------------
@@ -410,3 +441,122 @@ def finish(prop, level, tier, seed, t0, cases, results, rule, assumptions, alpha
           % (prop, tier, len(cases), evals, len(nontriv), cov["states"], cov["transitions"], len(new), sum(len(v) for v in by.values()),
              ev["wall_s"], p))
     return 1 if new else 0
+
+
+# ----------------------------------------------------------------------------------------------
+# history probe for "pure" functions: call, let the caller modify the returned object in place, call again
+
+
+def _copy(x):
+    import copy
+
+    return copy.deepcopy(x)
+
+
+def scribble(x):
+    """Modify a returned object in place, the way a caller who owns it may (negate and shift every number)."""
+    import numpy as np
+
+    if isinstance(x, np.ndarray):
+        if x.size and x.flags.writeable and x.dtype.kind in "fiu":
+            try:
+                np.negative(x, out=x)
+                x += 3
+            except Exception:
+                pass
+    elif isinstance(x, list):
+        for i, e in enumerate(x):
+            if isinstance(e, (list, tuple, np.ndarray)):
+                scribble(e)
+            elif isinstance(e, (int, float)) and not isinstance(e, bool):
+                x[i] = -e + 3
+    elif isinstance(x, tuple):
+        for e in x:
+            scribble(e)
+
+
+def same_value(a, b):
+    import numpy as np
+
+    if isinstance(a, (tuple, list)) and isinstance(b, (tuple, list)):
+        return len(a) == len(b) and all(same_value(x, y) for x, y in zip(a, b))
+    try:
+        a_ = np.asarray(a)
+        b_ = np.asarray(b)
+        if a_.shape != b_.shape:
+            return False
+        if a_.dtype.kind in "fc" or b_.dtype.kind in "fc":
+            return bool(np.all((a_ == b_) | (np.isnan(a_) & np.isnan(b_))))
+        return bool(np.all(a_ == b_))
+    except Exception:
+        return a == b
+
+
+def twice(r, key, fn, *args, **kw):
+    """History probe for functions that should behave as pure functions of their argument VALUES.
+
+      r1 = fn(args)                      first call; a copy c1 is kept
+      fn(_other)                         (optional) an unrelated call in between; r1 must still equal c1
+                                         (a result must not be a view of a buffer the next call overwrites)
+      scribble(r1)                       the caller edits the object it was given, in place
+      r2 = fn(args)                      same argument objects again; r2 must equal c1 bit for bit
+                                         (no memo poisoned by the caller, no argument modified in place by the first call)
+
+    Returns the clean copy c1.  It is a length-3/4 history executed on every input it is applied to."""
+    sort_rows = kw.pop("_sort_rows", False)
+    other = kw.pop("_other", None)
+    r1 = fn(*args, **kw)
+    c1 = _copy(r1)
+    if other is not None:
+        fn(*other)
+        r.evals += 1
+        if not same_value(r1, c1):
+            r.violation(key + ":earlier-result", "a result already returned is not changed by a later call with other arguments", _short(c1), _short(r1))
+            r1 = _copy(c1)
+    scribble(r1)
+    r2 = fn(*args, **kw)
+    a, b = c1, r2
+    if sort_rows:
+        import numpy as np
+
+        a = np.asarray(a, float)
+        b = np.asarray(b, float)
+        if a.ndim == 2 and b.ndim == 2 and a.shape == b.shape and a.size:
+            a = a[np.lexsort(a.T[::-1])]
+            b = b[np.lexsort(b.T[::-1])]
+    r.evals += 1
+    if not same_value(a, b):
+        r.violation(key + ":second-call", "a second call with the same argument objects (after the caller modified the first result in place) returns the same value",
+                    _short(c1), _short(r2))
+    return c1
+
+
+def _short(x):
+    if hasattr(x, "shape") and getattr(x, "size", 0) >= 40:
+        return "array%s" % (getattr(x, "shape", ""),)
+    return jsonable(x)
+
+
+def reuse(r, key, fn, obj, mutate, oracle_ok, what="a call with an argument object the caller has edited in place since the previous call uses its current contents"):
+    """History probe: fn(obj); caller edits obj in place (mutate(obj)); fn(obj) again.  oracle_ok(result) -> bool decides the
+    second result against the reference model for the NEW contents.  Exposes memo tables keyed on object identity."""
+    fn(obj)
+    mutate(obj)
+    try:
+        out = fn(obj)
+        ok = oracle_ok(out)
+    except Exception as ex:
+        out = ex
+        ok = oracle_ok(ex)
+    r.evals += 1
+    if not ok:
+        r.violation(key + ":reused-object", what, None, repr(out)[:300])
+
+
+def covering_walk(n):
+    """indices 0..n-1 arranged so that every ordered pair (i, j), including i = j, occurs consecutively at least once"""
+    seq = []
+    for i in range(n):
+        for j in range(n):
+            seq += [i, j]
+    return seq
